@@ -9,11 +9,27 @@ Theorem C34_title : forall s rest,
     rcdata (html_escape s ++ S_TITLE_END ++ rest) = ROk s (S_TITLE_END ++ rest).
 Proof. exact title_exact. Qed.
 
-(* script strings: for all strings outside the known class the literal
-   evaluates to the configured value and ends at the template's quote *)
+(* script strings, verbatim: for all strings outside the known classes 1 and 3
+   the literal evaluates to the configured value and ends at the template's quote *)
 Theorem C34_js : forall v rest, kc v = false ->
     js_sq (html_escape v ++ 39 :: rest) = JOk v rest.
 Proof. exact js_value_exact. Qed.
+
+(* script strings, context: for ALL strings without backslash / LF / CR (that
+   is, outside known class 3; quotes, ampersands, angle brackets and </script>
+   included) the rendered literal ends exactly at the template's closing quote,
+   never earlier (no quote, no </script, no <!-- inside) and never later *)
+Theorem C34_js_context : forall v rest, bs_free v = true ->
+    js_sq (html_escape v ++ 39 :: rest) = JOk (html_escape v) rest.
+Proof. exact js_literal_closed. Qed.
+
+(* ... and this is what the page-only judgement ctx_safe measures: the skeleton
+   lexer leaves the hole in code state right after the template's quote, so the
+   skeleton is the one of the neutral value x *)
+Theorem C34_js_context_skeleton : forall v rest, bs_free v = true ->
+    js_skel 1 (html_escape v ++ 39 :: rest) = ocons 39 (js_skel 0 rest) /\
+    js_skel 1 (html_escape v ++ 39 :: rest) = js_skel 1 (html_escape NEUTRAL ++ 39 :: rest).
+Proof. exact (fun v rest B => conj (js_skel_hole v rest B) (js_skel_hole_neutral v rest B)). Qed.
 
 (* for ALL strings the rendered value contains no less-than, greater-than,
    apostrophe or double quote: by itself it can neither close the quote, nor
@@ -27,34 +43,54 @@ Proof. exact (fun s c => html_escape_no c s). Qed.
 Theorem C34_template_holes : holes_ok None template_gen = true.
 Proof. exact template_holes. Qed.
 
+(* the page-only context judgement accepts a raw ampersand and rejects a raw
+   quote, a raw '+' between two literals and a raw </script> in a literal *)
+Theorem C34_ctx_safe_detects :
+  ctx_safe (raw_page [47; 103; 63; 97; 38; 98]) (raw_page NEUTRAL) = true /\
+  ctx_safe (raw_page [47; 103; 63; 39; 59; 97; 40; 41; 59; 47; 47]) (raw_page NEUTRAL) = false /\
+  ctx_safe (raw_page [47; 103; 63; 39; 43; 39]) (raw_page NEUTRAL) = false /\
+  ctx_safe (raw_page [47; 103; 63; 60; 47; 115; 99; 114; 105; 112; 116; 62]) (raw_page NEUTRAL) = false.
+Proof. exact ctx_safe_detects. Qed.
+
 (* known findings *)
+(* class 1: not verbatim, but context-safe *)
 Theorem C34_entity_refuted :
   js_sq (html_escape [97; 38; 98] ++ [39]) = JOk [97; 38; 35; 51; 56; 59; 98] [] /\
-  page_ok (cfg0 [47; 97; 38; 98]) (render (cfg0 [47; 97; 38; 98])) = false.
+  page_ok (cfg0 [47; 97; 38; 98]) (render (cfg0 [47; 97; 38; 98])) = false /\
+  model_ctx_safe (cfg0 [47; 97; 38; 98]) = true /\ known_class (cfg0 [47; 97; 38; 98]) = 1.
 Proof. exact refuted_entity. Qed.
+(* class 3: the value ends its string context *)
 Theorem C34_backslash_refuted :
   js_sq (html_escape [92] ++ 39 :: [41; 44; 39; 120]) = JOk [39; 41; 44] [120] /\
-  page_ok (cfg0 [47; 97; 92]) (render (cfg0 [47; 97; 92])) = false.
+  page_ok (cfg0 [47; 97; 92]) (render (cfg0 [47; 97; 92])) = false /\
+  model_ctx_safe (cfg0 [47; 97; 92]) = false /\ known_class (cfg0 [47; 97; 92]) = 3.
 Proof. exact refuted_backslash. Qed.
 Theorem C34_newline_refuted :
   js_sq (html_escape [97; 10; 98] ++ [39]) = JErr 2 /\
-  page_ok (cfg0 [97; 10; 98]) (render (cfg0 [97; 10; 98])) = false.
+  page_ok (cfg0 [97; 10; 98]) (render (cfg0 [97; 10; 98])) = false /\
+  model_ctx_safe (cfg0 [97; 10; 98]) = false /\ known_class (cfg0 [97; 10; 98]) = 3.
 Proof. exact refuted_newline. Qed.
+(* class 2 *)
 Theorem C34_missing_comma_refuted :
   values_ok cfg_both_w (render cfg_both_w) = true /\ options_ok (render cfg_both_w) = false /\
-  options_ok (render (cfg0 [47])) = true.
+  options_ok (render (cfg0 [47])) = true /\ model_ctx_safe cfg_both_w = true /\ known_class cfg_both_w = 2.
 Proof. exact refuted_missing_comma. Qed.
 
-Theorem C34_nonvacuous : known_class cfg_full = 0 /\ page_ok cfg_full (render cfg_full) = true.
+Theorem C34_nonvacuous : known_class cfg_full = 0 /\ page_ok cfg_full (render cfg_full) = true /\
+  model_ctx_safe cfg_full = true.
 Proof. exact c34_nonvacuous. Qed.
 
 Check C34_title : forall s rest, rcdata (html_escape s ++ S_TITLE_END ++ rest) = ROk s (S_TITLE_END ++ rest).
 Check C34_js : forall v rest, kc v = false -> js_sq (html_escape v ++ 39 :: rest) = JOk v rest.
+Check C34_js_context : forall v rest, bs_free v = true -> js_sq (html_escape v ++ 39 :: rest) = JOk (html_escape v) rest.
 
 Print Assumptions C34_title.
 Print Assumptions C34_js.
+Print Assumptions C34_js_context.
+Print Assumptions C34_js_context_skeleton.
 Print Assumptions C34_no_context_end.
 Print Assumptions C34_template_holes.
+Print Assumptions C34_ctx_safe_detects.
 Print Assumptions C34_entity_refuted.
 Print Assumptions C34_backslash_refuted.
 Print Assumptions C34_newline_refuted.
